@@ -18,7 +18,7 @@ TECHNIQUE = 'exhaustive enumeration of a small name language through the real co
 RULE = ('(a) all names up to the bound; (b) all 7,225 pairs in one file; (c) random unicode names; non-trivial = name containing a quote or a '
         'slash or empty; distinct = the name pair')
 ASSUMPTIONS = ['names contain no lone surrogates (not encodable as UTF-8)']
-REQUIRED = ['very_long_names', 'handed_out_lists_emptied', 'absent_name_lookups', 'reordered_segment_files', 'concat_ambiguity_files', 'file_chunk_lookups', 'memmap_files', 'reused_writer_objects', 'implied_group_lookups', 'codec_roundtrips', 'injectivity_pairs', 'end_to_end_lookups', 'unicode_names', 'lazy_lookups']
+REQUIRED = ['case_variant_names', 'very_long_names', 'handed_out_lists_emptied', 'absent_name_lookups', 'reordered_segment_files', 'concat_ambiguity_files', 'file_chunk_lookups', 'memmap_files', 'reused_writer_objects', 'implied_group_lookups', 'codec_roundtrips', 'injectivity_pairs', 'end_to_end_lookups', 'unicode_names', 'lazy_lookups']
 EXHAUSTIVE = {'quick': False, 'thorough': False}
 ALPHA = ["'", '/', ' ', 'a']
 
@@ -370,6 +370,11 @@ def unicode_names(case, ctx):
                 out.append(chr(cp))
         return ''.join(out)
     pairs = list({(name(), name()) for _ in range(40)})
+    if case['s'] % 4 == 1:
+        # names that differ only in letter case (or fold to the same lower-case form) are different names
+        pairs += [('Ua', 'x'), ('ua', 'x'), ('uA', 'X'), ('g', 'Ch'), ('g', 'ch'), ('g', 'CH'), ('\u212a', 'k'), ('k', '\u212a'), ('K', 'k'), ('ß', 'SS'), ('ss', 'ß')]
+        pairs = list(dict.fromkeys(pairs))
+        ctx.count('case_variant_names')
     if case['s'] % 4 == 0:
         # names longer than 64 KiB (strings read block-wise), multi-byte characters at every alignment, two names that differ only far inside
         unit = rng.choice(['é', '€', '😀', 'aé', 'ab€'])
